@@ -598,8 +598,13 @@ func nsPick08(r *rand.Rand, rate int) []byte {
 func TestC08(t *testing.T) {
 	m := mon.New(t, "C08")
 	defer m.Done()
-	m.Rule("case = one history on one variant (index-scheduled: shake128/256, cshake128/256, legacy keccak256/512 get 3/4 of the cases, sha3-224/256/384/512 1/4): message length from the index-scheduled class list {0,1,k·rate+d (k=1..3,d=-2..2),5·rate,1000,random 0..1000}, written in random chunkings (single, first chunk at rate±1, 1..3-byte chunks, with empty writes, random cuts), interleaved with Sum (random prefix/capacity), Clone (ShakeHash.Clone / hash.Cloner; clones are kept and later diverged), Reset, mid-stream Read; every XOF history ends with Sum, Clone, Read of 0..1000 bytes in random chunks, then Write and Sum attempts that must panic, then checks on clones taken before and after the Read; cSHAKE N,S from {0,1,31,32,rate-8,rate-7,rate-6,167,168,169,300}² with empty/empty and (empty, rate-7 bytes: prefix fills one block exactly) each forced every 9th sweep. Buffer ownership: every Write goes through one reused buffer that is overwritten after the call (and must come back unmodified), the caller-owned N/S slices are overwritten after the constructor and after every Clone/Reset, the last 8 slices returned by Sum / filled by Read / one-shot helpers are re-compared with snapshots after every later operation of any instance, Sum(b) gets guarded prefixes (no/short/enough spare capacity) and Read destinations sit between sentinel bytes. Oracle = executable FIPS 202/SP 800-185 spec (h/ref/keccak) as a pure function of (variant,N,S,bytes written since Reset, bytes read); panics judged both ways where documented (Write/Sum after Read on ShakeHash, Write/Sum after Read on the legacy state via io.Reader); zero-length first Read, Sum on a squeezing clone and Reset-after-Read accept every consistent reading. distinct = (variant, length class, chunk style, N/S size class, set of interleaved op kinds, output class)")
+	m.Rule("case = one history on one variant (index-scheduled: shake128/256, cshake128/256, legacy keccak256/512 get 3/4 of the cases, sha3-224/256/384/512 1/4): message length from the index-scheduled class list {0,1,k·rate+d (k=1..3,d=-2..2),5·rate,1000,random 0..1000}, written in random chunkings (single, first chunk at rate±1, 1..3-byte chunks, with empty writes, random cuts), interleaved with Sum (random prefix/capacity), Clone (ShakeHash.Clone / hash.Cloner; clones are kept and later diverged), Reset, mid-stream Read; every XOF history ends with Sum, Clone, Read of 0..1000 bytes in random chunks, then Write and Sum attempts that must panic, then checks on clones taken before and after the Read; cSHAKE N,S from {0,1,31,32,rate-8,rate-7,rate-6,167,168,169,300}² with empty/empty and (empty, rate-7 bytes: prefix fills one block exactly) each forced every 9th sweep. Buffer ownership: every Write goes through one reused buffer that is overwritten after the call (and must come back unmodified), the caller-owned N/S slices are overwritten after the constructor and after every Clone/Reset, the last 8 slices returned by Sum / filled by Read / one-shot helpers are re-compared with snapshots after every later operation of any instance, Sum(b) gets guarded prefixes (no/short/enough spare capacity) and Read destinations sit between sentinel bytes. Concurrency stream conc: per round 3 goroutines call sha3.Sum*/ShakeSum* while 4-5 more each drive their own object (a parent, its Clone, an UnmarshalBinary copy, fresh ones of two variants) through Write/Sum/Read with Gosched between calls, released by a barrier, every 4th round under GOMAXPROCS(1); expected outputs precomputed single-threaded from the reference; the verif,race variant runs only this stream under the race detector. Oracle = executable FIPS 202/SP 800-185 spec (h/ref/keccak) as a pure function of (variant,N,S,bytes written since Reset, bytes read); panics judged both ways where documented (Write/Sum after Read on ShakeHash, Write/Sum after Read on the legacy state via io.Reader); zero-length first Read, Sum on a squeezing clone and Reset-after-Read accept every consistent reading. distinct = (variant, length class, chunk style, N/S size class, set of interleaved op kinds, output class)")
 	m.Assume("h/ref/keccak derives ρ offsets and ι constants from the FIPS 202 algorithms and passes FIPS 202 / SP 800-185 sample / Keccak-256/512 known answers in its own unit test; cross-checked here on every comparison against libgcrypt (SHA3, SHAKE), nettle (SHA3) and on final states against python hashlib; cSHAKE with non-empty N/S and legacy Keccak have the ref as only oracle (same sponge code, different domain byte/prefix)")
+	if mon.RaceBuild {
+		// race-detector variant: only the shared-value concurrency streams
+		conc08(m)
+		return
+	}
 	py, err := ext.StartPy()
 	if err != nil {
 		m.Note("python witness unavailable: " + err.Error())
@@ -823,6 +828,7 @@ func TestC08(t *testing.T) {
 			m.Sample(map[string]any{"variant": v.name, "msg_len": msgLen, "chunks": chunks, "N_len": len(c.n), "S_len": len(c.s), "out_len": outN, "ops": len(c.log), "interleaved": ops})
 		}
 	})
+	conc08(m)
 	q := func(a, b int) int { return m.N(a, b) }
 	m.Gate("histories_shake", q(1000, 40000), "SHAKE histories")
 	m.Gate("histories_cshake", q(1000, 40000), "cSHAKE histories")
